@@ -194,6 +194,61 @@ pub fn run(reg: &dyn Registry, ctx: &Ctx) -> Outcome {
         }
         ctx.set("value_directed_projection_starts", vd.iter().map(|s| s.states).sum());
     }
+    // sparse states of the small linear generators (state = seed, n <= 128 bits): every one-bit and
+    // two-bit state, every non-native call shape once (a non-native call fused into one step of its own)
+    {
+        let sparse: Vec<Stats> = types
+            .par_iter()
+            .filter(|t| matches!(t.info().linear_bits, Some(n) if n <= 128))
+            .map(|ty| {
+                let info = ty.info();
+                let n = info.linear_bits.unwrap();
+                let mut seeds: Vec<Vec<u8>> = crate::alphabet::w1(n / 8);
+                seeds.extend(crate::alphabet::w2_pairs(n).into_iter().map(|(i, j)| crate::alphabet::with_bits(n / 8, &[i, j])));
+                let alphabet: Vec<Op> = if info.word_bits == 32 { vec![Op::U64, Op::Fill(8), Op::Fill(5)] } else { vec![Op::U32, Op::Fill(4), Op::Fill(12)] };
+                let mut stats = Stats::default();
+                for seed in seeds {
+                    let mk = SeedMaker { ty: *ty, seed };
+                    let native = histories::native_stream(&mk, 10);
+                    let stream = Stream { info, native: &native, own_u32: None };
+                    let mut out = Vec::new();
+                    histories::explore(&mk, &stream, &[], Pos::start(), &alphabet, 1, 2, &mut stats, &mut out);
+                    for v in out {
+                        ctx.violation(&format!("C05:{}", v.key), &format!("{} [start: {}]", v.what, mk.describe()), v.replay);
+                    }
+                }
+                stats
+            })
+            .collect();
+        for s in &sparse {
+            add(&mut total, s);
+        }
+        ctx.set("sparse_state_starts", sparse.iter().map(|s| s.states).sum());
+    }
+    // very large requests (64 KiB + 3, 1 MiB + 5 into a misaligned destination) from a few buffer
+    // positions, followed by the usual look-ahead
+    {
+        let huge: Vec<Stats> = types
+            .par_iter()
+            .map(|ty| {
+                let info = ty.info();
+                let b = info.block_words.unwrap_or(2);
+                let mut starts: Vec<(usize, bool)> = vec![(0, false), (1, false), (b / 2, false), (b - 1, false)];
+                if info.family == Family::Isaac64 {
+                    starts.push((b - 1, true));
+                }
+                starts.dedup();
+                let mk = SeedMaker { ty: *ty, seed: standard_seeds(*ty, ctx.seed)[1].clone() };
+                let alphabet = vec![Op::Fill(65539), Op::FillAt((1 << 20) + 5, 3)];
+                let words = ((1 << 20) + 5) / (info.word_bits / 8) + 2 * b + 64;
+                explore_maker_from(&mk, &starts, 1, ctx, "C05", &alphabet, words)
+            })
+            .collect();
+        for s in &huge {
+            add(&mut total, s);
+        }
+        ctx.set("huge_fill_explorations", huge.len() as u64);
+    }
     // deep stream positions: the same exploration started 1000 (and, thorough, 65536) blocks in
     {
         let thorough = ctx.tier == crate::evidence::Tier::Thorough;
